@@ -6,18 +6,134 @@ import (
 	"context"
 	"fmt"
 	"net"
+	"regexp"
+	"sort"
 	"strconv"
 	"strings"
+	"sync"
 	"testing"
 	"time"
+
+	edgexErr "github.com/edgexfoundry/go-mod-core-contracts/v4/errors"
 )
 
+// logger that keeps the Debug lines (the probe estimate is only visible there)
+type c16Logger struct {
+	mu    *sync.Mutex
+	debug *[]string
+}
+
+func (l c16Logger) SetLogLevel(string) edgexErr.EdgeX { return nil }
+func (l c16Logger) LogLevel() string                  { return "DEBUG" }
+func (l c16Logger) Debug(m string, _ ...interface{}) {
+	l.mu.Lock()
+	*l.debug = append(*l.debug, m)
+	l.mu.Unlock()
+}
+func (l c16Logger) Error(string, ...interface{})  {}
+func (l c16Logger) Info(string, ...interface{})   {}
+func (l c16Logger) Trace(string, ...interface{})  {}
+func (l c16Logger) Warn(string, ...interface{})   {}
+func (l c16Logger) Debugf(string, ...interface{}) {}
+func (l c16Logger) Errorf(string, ...interface{}) {}
+func (l c16Logger) Infof(string, ...interface{})  {}
+func (l c16Logger) Tracef(string, ...interface{}) {}
+func (l c16Logger) Warnf(string, ...interface{})  {}
+
+var c16EstRe = regexp.MustCompile(`total estimated network probes: (-?\d+)`)
+
+// c16Discover runs autoDiscover itself over loopback subnets (all of 127/8 is local): a listener
+// on every IPv4 address records which local address each probe connected to and hangs up.
+// Answer: "<estimate logged> <probes> <probed addresses, sorted>"
+func c16Discover(asyncLimit int, subnets []string) string {
+	ln, err := net.Listen("tcp4", "0.0.0.0:0")
+	if err != nil {
+		return "error " + err.Error()
+	}
+	var mu sync.Mutex
+	var got []uint32
+	accDone := make(chan struct{})
+	go func() {
+		defer close(accDone)
+		for {
+			c, err := ln.Accept()
+			if err != nil {
+				return
+			}
+			ip := c.LocalAddr().(*net.TCPAddr).IP.To4()
+			mu.Lock()
+			got = append(got, uint32(ip[0])<<24|uint32(ip[1])<<16|uint32(ip[2])<<8|uint32(ip[3]))
+			mu.Unlock()
+			_ = c.Close()
+		}
+	}()
+	var lmu sync.Mutex
+	var dbg []string
+	old := driver.lc
+	driver.lc = c16Logger{mu: &lmu, debug: &dbg}
+	done := make(chan struct{})
+	go func() {
+		defer close(done)
+		autoDiscover(context.Background(), discoverParams{
+			subnets:    subnets,
+			asyncLimit: asyncLimit,
+			timeout:    500 * time.Millisecond,
+			scanPort:   strconv.Itoa(ln.Addr().(*net.TCPAddr).Port),
+		})
+	}()
+	returned := true
+	select {
+	case <-done:
+	case <-time.After(60 * time.Second):
+		returned = false
+	}
+	driver.lc = old
+	// connections that completed in the kernel but were not accepted yet
+	for settle, last := 0, -1; settle < 5; {
+		time.Sleep(20 * time.Millisecond)
+		mu.Lock()
+		n := len(got)
+		mu.Unlock()
+		if n == last {
+			settle++
+		} else {
+			settle, last = 0, n
+		}
+	}
+	_ = ln.Close()
+	<-accDone
+	if !returned {
+		return "error autoDiscover did not return"
+	}
+	est := "none"
+	lmu.Lock()
+	for _, m := range dbg {
+		if g := c16EstRe.FindStringSubmatch(m); g != nil {
+			est = g[1]
+		}
+	}
+	lmu.Unlock()
+	mu.Lock()
+	defer mu.Unlock()
+	sort.Slice(got, func(i, j int) bool { return got[i] < got[j] })
+	var sb strings.Builder
+	fmt.Fprintf(&sb, "%s %d", est, len(got))
+	for _, a := range got {
+		sb.WriteByte(' ')
+		sb.WriteString(strconv.FormatUint(uint64(a), 10))
+	}
+	return sb.String()
+}
+
 // request lines (one answer line each, same format as oracle/c16):
-//   gen <cidr>            full enumeration: "<count> a1 a2 ..."
-//   sum <cidr>            full enumeration: "<count> <first> <last> <hash>"
-//   head <cidr> <n>       first n addresses then cancel: "<returned> a1 .. an"
-//   cancel <cidr>         no consumer, cancel: "<returned>"
-//   sz <p>                computeNetSz(p)
+//
+//	gen <cidr>            full enumeration: "<count> a1 a2 ..."
+//	sum <cidr>            full enumeration: "<count> <first> <last> <hash>"
+//	head <cidr> <n>       first n addresses then cancel: "<returned> a1 .. an"
+//	cancel <cidr>         no consumer, cancel: "<returned>"
+//	sz <p>                computeNetSz(p)
+//	slow <cidr> <k> <ms>  full enumeration by a consumer that pauses <ms> after k addresses (answer as gen)
+//	disc <limit> <cidr,cidr,..>  autoDiscover over loopback subnets: "<estimate> <count> <sorted addresses>"
 func TestVerifC16(t *testing.T) {
 	lines, w, done := verifIO(t)
 	defer done()
@@ -56,9 +172,13 @@ func TestVerifC16(t *testing.T) {
 				}
 				fmt.Fprintf(w, "%d %d %d %d\n", n, first, last, h)
 			}
-		case "rawgen":
-			// an IPNet built by hand: the IP field keeps its host bits (not what ParseCIDR returns)
+		case "rawgen", "rawgen16":
+			// an IPNet built by hand: the IP field keeps its host bits (not what ParseCIDR returns);
+			// rawgen16 uses Go's 16-byte form of the IPv4 address (what net.IPv4 / net.ParseIP return)
 			ip := net.ParseIP(f[1]).To4()
+			if f[0] == "rawgen16" && ip != nil {
+				ip = net.IPv4(ip[0], ip[1], ip[2], ip[3])
+			}
 			p, _ := strconv.Atoi(f[2])
 			if ip == nil {
 				fmt.Fprintf(w, "error bad ip\n")
@@ -124,6 +244,42 @@ func TestVerifC16(t *testing.T) {
 			time.Sleep(2 * time.Millisecond) // let it reach its first send
 			cancel()
 			fmt.Fprintf(w, "%v\n", waitRet(ret))
+		case "slow":
+			_, ipnet, err := net.ParseCIDR(f[1])
+			if err != nil {
+				fmt.Fprintf(w, "error %v\n", err)
+				continue
+			}
+			k, _ := strconv.Atoi(f[2])
+			ms, _ := strconv.Atoi(f[3])
+			ch := make(chan uint32) // unbuffered: the generator waits for the consumer
+			go func() {
+				ipGenerator(context.Background(), ipnet, ch)
+				close(ch)
+			}()
+			var sb strings.Builder
+			n := 0
+			for ip := range ch {
+				sb.WriteByte(' ')
+				sb.WriteString(strconv.FormatUint(uint64(ip), 10))
+				n++
+				if n == k {
+					time.Sleep(time.Duration(ms) * time.Millisecond)
+				}
+			}
+			fmt.Fprintf(w, "%d%s\n", n, sb.String())
+		case "disc":
+			limit, _ := strconv.Atoi(f[1])
+			var subnets []string
+			if len(f) > 2 {
+				for _, c := range strings.Split(f[2], ",") {
+					if c == "-" {
+						c = "" // an empty entry of the configured list
+					}
+					subnets = append(subnets, c)
+				}
+			}
+			fmt.Fprintf(w, "%s\n", c16Discover(limit, subnets))
 		case "sz":
 			p, _ := strconv.Atoi(f[1])
 			fmt.Fprintf(w, "%d\n", computeNetSz(p))
